@@ -535,6 +535,7 @@ class Scheduler:
             assert job.type == other.type
             if other.state == JobState.ERROR:
                 logger.info("Re-submitting job")
+                self.xp.unfinishedJobs += 1
             else:
                 logger.warning("Job %s already submitted", job.identifier)
                 return other
